@@ -60,7 +60,13 @@ type Contract struct {
 	Drops    []string             // callee names whose calls are dropped (no effect) in this function
 	Dead     []string             // return tags (ret5) that are expected to be unreachable (defensive code)
 	Options  map[string]bool
+	GhostAssigns []ghostAssign // ghost updates performed at function entry (body verification only)
 	Used     bool
+}
+
+type ghostAssign struct {
+	Var  string
+	Expr *SExpr
 }
 
 type letDef struct {
@@ -872,8 +878,21 @@ func (sp *Specs) loadFile(path string, defaultPkg string) error {
 			sp.Lemmas = append(sp.Lemmas, lm)
 			cur = nil
 		case "ghost":
-			// ghost var name Sort
+			// ghost var name Sort      (declaration)
+			// ghost name = expr        (inside a func contract: ghost update at entry)
 			kw, rest := firstWord(l.rest)
+			if kw != "var" && cur != nil {
+				i := strings.Index(l.rest, "=")
+				if i < 0 {
+					return fmt.Errorf("%s: bad ghost assignment", pos)
+				}
+				e, err := parseSpecExpr(l.rest[i+1:], pos)
+				if err != nil {
+					return err
+				}
+				cur.GhostAssigns = append(cur.GhostAssigns, ghostAssign{strings.TrimSpace(l.rest[:i]), e})
+				break
+			}
 			if kw != "var" {
 				return fmt.Errorf("%s: expected 'ghost var'", pos)
 			}
